@@ -25,7 +25,8 @@ RULE = ("every program of the C01 C02 C03 C04 C06 C07 C09 generators plus "
         "formats whose scalars are updated in place, sub-programs, every "
         "combination of per-CPU map / array map / hash map / stack "
         "variables in any declaration order with static or dynamic packet "
-        "guards, dynamic packetSize guards after "
+        "guards, memory operands addressed through a bare register in every "
+        "position, dynamic packetSize guards after "
         "arithmetic, nested guards) and the library's own programs (the "
         "EtherXDP dispatcher; FastSyncGroup over random terminal sets with "
         "each bundled device AnalogInput/Output, DigitalInput/Output, "
@@ -311,6 +312,57 @@ def fam_storage_mix(rng):
     return mk, dict(kinds=kinds, static=static, G=G, fmts=fm)
 
 
+def fam_regmem(rng):
+    """memory operands addressed through a register (e.mQ[reg], with and
+    without an offset) in every position: source of a copy into a hash-map /
+    array-map / stack variable, destination, in-place update, operand of an
+    expression"""
+    fmt = rng.choice(["B", "H", "I", "Q", "q", "i"])
+    reg = rng.choice([6, 8, 2, 3, 4])
+    off = rng.choice([0, 0, 0, 8])
+    uses = [rng.choice(["to_hash", "to_array", "to_local", "store", "iadd",
+                        "expr", "to_hash"]) for _ in range(rng.randint(1, 4))]
+    live_r3 = rng.random() < 0.3
+
+    def mk():
+        from ebpfcat.hashmap import HashMap
+        from ebpfcat.ebpf import LocalVar
+        m = ArrayMap()
+        h = HashMap()
+        ns = {"license": "GPL", "m": m, "h": h, "hv": h.globalVar(),
+              "av": m.globalVar("Q"), "lv": LocalVar("Q"),
+              "s0": LocalVar("Q"), "s1": LocalVar("Q")}
+
+        def program(self):
+            e = self
+            e.s0 = 5
+            e.s1 = 7
+            addr = type(e).__dict__["s0" if off else "s1"].fmt_addr(e)[1]
+            e.r[reg] = e.r10 + addr
+            if live_r3 and reg != 3:
+                e.r3 = 99
+            mem = {"B": e.mB, "H": e.mH, "I": e.mI, "Q": e.mQ, "q": e.mq,
+                   "i": e.mi}[fmt]
+            a = e.r[reg] + off if off else e.r[reg]
+            for u in uses:
+                if u == "to_hash":
+                    e.hv = mem[a]
+                elif u == "to_array":
+                    e.av = mem[a]
+                elif u == "to_local":
+                    e.lv = mem[a]
+                elif u == "store":
+                    mem[a] = 3
+                elif u == "iadd" and fmt in "IQqi":
+                    mem[a] += 1
+                else:
+                    e.av = mem[a] * 3 + 1
+            e.exit(XDPExitCode.PASS)
+        ns["program"] = program
+        return type("VfRegMem", (XDP,), ns)()
+    return mk, dict(fmt=fmt, reg=reg, off=off, uses=uses, live_r3=live_r3)
+
+
 def fam_subprog(rng):
     nsub = rng.randint(1, 3)
     fm = [rng.choice("BHIQbhiq") for _ in range(nsub)]
@@ -458,6 +510,8 @@ def run_shard(params):
         submit("subprog", fam_subprog(rng), res)
         mk, d = fam_storage_mix(rng)
         submit("storagemix", mk, res, desc=d)
+        mk, d = fam_regmem(rng)
+        submit("regmem", mk, res, desc=d)
         mk, names = fam_fastgroup(rng)
         submit("fastgroup", mk, res, desc=names)
     return res
@@ -466,7 +520,7 @@ def run_shard(params):
 def finalize(res, tier, seed):
     c = res.counters
     fams = ["c01", "c02", "c03", "c04", "c06", "c07", "c09hash", "c09dict",
-            "calls", "rawcall", "layout", "guards", "subprog", "storagemix",
+            "calls", "rawcall", "layout", "guards", "subprog", "storagemix", "regmem",
             "fastgroup",
             "dispatcher"]
     missing = [f for f in fams if not c.get(f"loaded[{f}]")]
